@@ -259,9 +259,13 @@ class Exec(ExecExpr):
     # ------------------------------------------------------------------ contracts at call sites
     def apply_contract(self, st, c, recv, args, kwargs, node):
         q = c.variant_of or c.qual
-        self.used_contracts.add(c.qual)
         k = self.call_ordinals.get(id(node), 0)
         env = self.bind(st, c, q, recv, args, kwargs, node)
+        for (pname, pval), vq in c.variants.items():
+            if pname in env and env[pname].has_py and env[pname].py == pval:
+                c = SP.CONTRACTS[vq]
+                break
+        self.used_contracts.add(c.qual)
         short = c.qual.split(':')[1]
         # declared parameter types are part of the precondition
         for p, ty in c.types.items():
@@ -329,7 +333,10 @@ class Exec(ExecExpr):
         res = SV(rterm, c.returns)
         n.assume(shape(n, rterm, c.returns))
         for lab, text in c.labelled(c.ensures):
-            n.assume(SP.SpecEval(n, env, modname, old=old, result=res, extra=lets).bool(text))
+            sev2 = SP.SpecEval(n, env, modname, old=old, result=res, extra=lets)
+            n.assume(sev2.bool(text))
+            for f in sev2.typing:
+                n.assume(f)
         n.notes['calls'] = n.notes.get('calls', ()) + ((c.qual, 'ret', rterm, c.returns),)
         if self.feasible(n):
             normals.append((n, res))
